@@ -26,6 +26,8 @@ def _findings(prop_rules, repo, tolerate=None):
     for rid in prop_rules:
         try:
             r = RULES[rid](ctx)
+            if getattr(r, 'deferred', None):
+                errors.append(f'{rid}: ' + '; '.join(r.deferred))
         except AnalysisError as e:
             errors.append(f'{rid}: {e}')
             continue
